@@ -194,6 +194,31 @@ def real_one_calls(sc_json):
     return dict(trace=tr, calls=worlds[0].calls)
 
 
+def real_one_raw(sc_json):
+    """like real_one, plus the events exactly as the application sees them: (class name, sorted public attributes) per event, with
+    nothing canonicalised (error texts verbatim); times are left out"""
+    sc = scenario_from_json(sc_json)
+    worlds = []
+    try:
+        tr = world.run_chain([sc], worlds)[0]
+    except runner.HangError:
+        return dict(trace='HANG', raw=[])
+    raw = []
+    for _tok, ev in worlds[0].kept:
+        d = []
+        for k in sorted(dir(ev)):
+            if k.startswith('_') or k == 'received_time':
+                continue
+            try:
+                v = getattr(ev, k)
+            except Exception as e:  # noqa
+                v = 'raises ' + type(e).__name__
+            if not callable(v):
+                d.append((k, v))
+        raw.append('%s %r' % (type(ev).__name__, d))
+    return dict(trace=tr, raw=raw)
+
+
 def real_duo(item):
     """item = (scenario json a, scenario json b, pattern): two connections alive at the same time (world.run_duo)"""
     a, b, pattern = item
